@@ -3,6 +3,7 @@
 From BX Require Import Model.Router Proofs.RouterProofs.
 From BX Require Import Base.Prelude Base.Fsm Model.TxFsm Model.TxMgr Model.Interchain Model.IbtpExec Model.IbtpMon Model.IbtpJudge
      Proofs.IbtpInv Proofs.IbtpTimeout Proofs.IbtpBlock Proofs.IbtpProps.
+From BX Require Import Proofs.IbtpMonProofs.
 Local Open Scope N_scope.
 
 (** [armed t H i hh]: the record of [i] waits with status BEGIN for height [hh] > H and [i] is in the
@@ -90,6 +91,13 @@ Theorem C06_router_faithful : forall d b m, indices_ok b m = true ->
   exists wr, deliver_block d b m = Ok wr /\ wrapper_faithful d b m wr.
 Proof. exact router_faithful. Qed.
 Print Assumptions C06_router_faithful.
+
+
+(** the boolean predicate the judge evaluates on implementation traces is exactly the inductively
+    defined trace property [C06_trace] (Proofs/IbtpMonProofs.v) *)
+Theorem C06_predicate_reflects : forall w q items tr, c06_b w q items tr = true <-> C06_trace w q 2 c6_init None items tr.
+Proof. exact c06_b_spec. Qed.
+Print Assumptions C06_predicate_reflects.
 
 (** * witnesses *)
 Definition w2 : world :=
